@@ -387,8 +387,10 @@ class ContiguousBuffer final {
                       Byte>::value>::type>
   explicit ContiguousBuffer(T *bytes)
       : bytes_{reinterpret_cast<Byte *>(bytes->data())}, size_{bytes->size()} {
-    if (bytes != nullptr)
-      EMBOSS_DCHECK_POINTER_ALIGNMENT(bytes, kAlignment, kOffset);
+    // The alignment promise is about the bytes, not about the container object
+    // that owns them.
+    if (bytes_ != nullptr)
+      EMBOSS_DCHECK_POINTER_ALIGNMENT(bytes_, kAlignment, kOffset);
   }
 
   // Constructs a ContiguousBuffer from a pointer to a char type and a size.  As
